@@ -699,7 +699,11 @@ theorem wildcards_never_reported (f : File) (r : Restr) (o : Outcome) (h : assig
     before fixes/C17_1..4 (`Legacy`) differs from the property is witnessed -/
 section Witnesses
 
-deriving instance DecidableEq for Except
+instance decEqExcept {ε α : Type} [DecidableEq ε] [DecidableEq α] : DecidableEq (Except ε α)
+  | .ok a, .ok b => if h : a = b then isTrue (by rw [h]) else isFalse (by intro e; injection e; contradiction)
+  | .error a, .error b => if h : a = b then isTrue (by rw [h]) else isFalse (by intro e; injection e; contradiction)
+  | .ok _, .error _ => isFalse (by intro e; cases e)
+  | .error _, .ok _ => isFalse (by intro e; cases e)
 
 def C1 : Str := ['C', '1']
 def C2 : Str := ['c', '2']       -- names and classes are not case sensitive
@@ -721,6 +725,15 @@ example : WellFormed fileA restrA := by decide +kernel
 example : missing fileA restrA = [(['C', '2'], 2), (['C', '2'], 2)] := by decide +kernel
 example : (assign fileA restrA).map reported = .ok [(['C', '2'], 2), (['C', '2'], 2)] := by decide +kernel
 example : classUnknown fileA restrA = false := by decide +kernel
+
+/-- `SADI_1 C1 c2 $C C1_2 C1_*`: every addressed atom exists -/
+def restrOK : Restr :=
+  { kw := ['S', 'A', 'D', 'I', '_', '1'], atoms := [C1, C2, ['$', 'C'], ['C', '1', '_', '2'], ['C', '1', '_', '*']] }
+example : WellFormed fileA restrOK ∧ missing fileA restrOK = [] ∧ classUnknown fileA restrOK = false := by decide +kernel
+example : ∃ o, assign fileA restrOK = .ok o ∧ o.anyMessage = false :=
+  no_warning_if_all_exist _ _ (by decide +kernel) (by decide +kernel) (by decide +kernel)
+example : ∃ o, assign fileA restrA = .ok o ∧ ∀ p, p ∈ reported o ↔ p ∈ missing fileA restrA :=
+  warnings_eq_missing _ _ (by decide +kernel)
 
 /-- `SADI_* C1 C3` -/
 def restrStar : Restr := { kw := ['S', 'A', 'D', 'I', '_', '*'], atoms := [C1, C3] }
